@@ -20,7 +20,7 @@ RULE = ("every code point 0..0x10FFFF (incl. surrogates) in the seven contexts c
         "coverage.names_changed.")
 FLOOR = {"quick": 20000, "thorough": 20000}
 BUDGET = {"quick": 45, "thorough": 420}
-CASE_TIMEOUT = 60
+CASE_TIMEOUT = 900
 NEEDS_EVENTS = True
 EXHAUSTIVE = {"quick": True, "thorough": True}
 ANCHORS = ["hy.reader.mangling:mangle"]
@@ -76,6 +76,9 @@ def gate(tot, classes, extra, tier):
 def cases(seed, tier, shard, nshards):
     for b in G.block_indices(shard, nshards):
         yield {"kind": "cp", "lo": b * G.BLOCK, "n": G.BLOCK}
+    if tier == "thorough" and shard == nshards - 1:
+        # DESIGN 6.8: the repository's own tests as a workload, hy.mangle under an icontract postcondition
+        yield {"kind": "repo-tests-under-contracts"}
     nb = RAND_TOTAL[tier] // RAND_BATCH
     for i in range(nb):
         if i % nshards != shard:
@@ -163,7 +166,24 @@ def check_name(mangle, s):
     return ("bad" if why else "ok"), m, why, calls
 
 
+def run_repo_tests_case():
+    from hv.contracts import run_repo_tests
+    d = run_repo_tests()
+    n = d.get("evaluations", {}).get("mangle", 0)
+    if "error" in d or not d.get("installed") or n == 0:
+        return {"ok": None, "classes": ["repo-tests:contract-not-evaluated"]}
+    bad = [v["what"] for v in d.get("violations", []) if v["property"] == ID]
+    res = {"ok": not bad, "nontrivial": False, "classes": ["repo-tests-under-contracts"], "events": n, "n": n,
+           "sample": {"kind": "repo-tests-under-contracts", "contract_evaluations": d["evaluations"],
+                      "tests_collected": d.get("tests_collected")}}
+    if bad:
+        res["why"] = "icontract postcondition on hy.mangle failed during the repository's tests: " + " | ".join(bad[:3])
+    return res
+
+
 def run_case(case):
+    if case["kind"] == "repo-tests-under-contracts":
+        return run_repo_tests_case()
     mangle = _mangle()
     bad = []
     calls = n = changed = skipped = 0
